@@ -705,3 +705,56 @@ pub fn trace_header(db: &MemDb, b: &BlockSpec, dict: &[String], workers: usize, 
     }
     out
 }
+
+/// In-order oracle on the first `k` transactions only (reference for "exact committed prefix").
+pub fn oracle_prefix(db: &MemDb, b: &BlockSpec, k: usize) -> BlockResult {
+    let mut b2 = b.clone();
+    b2.txs.truncate(k);
+    b2.descr.truncate(k);
+    oracle(db, &b2)
+}
+
+/// Pick a fault: mostly a key in-order execution reads, sometimes a key only a stale attempt reads.
+pub fn pick_fault(rng: &mut Rng, world: &World, in_order_reads: &[DbKey]) -> (DbKey, FaultMode) {
+    let mode = if rng.chance(1, 2) { FaultMode::Persistent } else { FaultMode::FailOnce };
+    let key = if !in_order_reads.is_empty() && rng.chance(7, 10) {
+        rng.pick(in_order_reads).clone()
+    } else {
+        match rng.below(3) {
+            0 => DbKey::Storage(world.mix, U256::from(rng.below(8))),
+            1 => DbKey::Basic(eoa(rng.below(world.n_eoa as u64 + 1) as usize)),
+            _ => DbKey::Storage(world.victims[0], U256::from(5)),
+        }
+    };
+    (key, mode)
+}
+
+/// C04 verdict for one faulty run. `clean` = oracle without the fault, `faulty` = oracle with it.
+pub fn fault_verdict(db: &MemDb, b: &BlockSpec, mode: FaultMode, clean: &BlockResult, faulty: &BlockResult, g: &BlockResult) -> Vec<String> {
+    match mode {
+        FaultMode::Persistent => compare(faulty, g),
+        FaultMode::FailOnce => {
+            if compare(clean, g).is_empty() {
+                return vec![]; // absorbed
+            }
+            match &g.result {
+                Err((k, e)) if e.starts_with("Database(") && *k <= b.txs.len() => {
+                    let pre = oracle_prefix(db, b, *k);
+                    let mut d = Vec::new();
+                    if pre.outcomes != g.outcomes {
+                        d.push(format!("transient fault reported at {k} but outcomes are not the first {k} in-order outcomes (got {} outcomes)", g.outcomes.len()));
+                    }
+                    if pre.bundle != g.bundle {
+                        d.push(format!("transient fault reported at {k} but the state is not the in-order state after {k} transactions"));
+                    }
+                    d
+                }
+                _ => {
+                    let mut d = compare(clean, g);
+                    d.insert(0, "transient fault neither absorbed nor reported with an exact prefix".to_owned());
+                    d
+                }
+            }
+        }
+    }
+}
